@@ -257,7 +257,9 @@ def note_known(rep, sig, what):
         if common.finding_matches(k, {"sig": sig}):
             if k["id"] not in _known_seen:
                 _known_seen[k["id"]] = what
-                print(f"KNOWN-FINDING: property={PID} {k['id']}: {k['what']}\n    reproduced: {what[:400]}")
+                # recorded as a failing input: common.finish() classifies it as the listed finding and prints the KNOWN-FINDING line
+                rep.fail("failing-input", what, case=None, sig=sig)
+                print(f"    reproduced ({k['id']}): {what[:400]}")
             rep.coverage.setdefault("known_findings_reproduced", {})
             rep.coverage["known_findings_reproduced"].setdefault(k["id"], {"what": k["what"], "first_case": what[:600], "hits": 0})
             rep.coverage["known_findings_reproduced"][k["id"]]["hits"] += 1
@@ -323,7 +325,8 @@ def encode_trace(trace, depth, classes=None):
     when given, the frontier model de-duplicates by the MODEL's state id; otherwise by the
     recorded real one"""
     sid = (lambda u, y: classes.get(u, y)) if classes else (lambda u, y: y)
-    enc = [depth, trace["setup"][0], sid(trace["setup"][0], trace["setup"][1]), len(trace["states"])]
+    # (the id of the setUp state only matters if run_contract registers it as visited: Gen/GenInvFilters.v setup_registered_as_visited)
+    enc = [depth, trace["setup"][0], sid(trace["setup"][0], trace["setup"][1]) if trace["setup"][1] != -1 else -2, len(trace["states"])]
     for u, groups in trace["states"].items():
         enc += [int(u), len(groups)]
         for g in groups:
@@ -335,7 +338,7 @@ def encode_trace(trace, depth, classes=None):
 
 def state_tokens(trace):
     """uid -> token of the id the real get_state_id returned (setUp state + every successful end state)"""
-    toks = {trace["setup"][0]: trace["setup"][1]}
+    toks = {trace["setup"][0]: trace["setup"][1]} if trace["setup"][1] != -1 else {}
     for groups in trace["states"].values():
         for g in groups:
             for k, x, y in g["outcomes"]:
@@ -357,6 +360,9 @@ def describe_difference(ca, cb):
         only_a = [ta.get(str(i), c) for i, c in enumerate(ca["conds"]) if c in ia[3] - ib[3]]
         only_b = [tb.get(str(i), c) for i, c in enumerate(cb["conds"]) if c in ib[3] - ia[3]]
         parts.append(f"constraints on state variables differ: {only_a} vs {only_b}")
+    if ia[4] != ib[4]:
+        names = ["basefee", "chainid", "coinbase", "prevrandao", "gaslimit", "number"]
+        parts.append("block fields differ: " + ", ".join(f"{n}: {x // 2 if x % 2 == 0 else 'symbolic'} vs {y // 2 if y % 2 == 0 else 'symbolic'}" for n, x, y in zip(names, ia[4], ib[4]) if x != y))
     return "; ".join(parts) or "no difference"
 
 
@@ -433,7 +439,7 @@ def check_state_ids(rep, name, trace, model, rerun):
     rep.count("l3_state_ids", "cases with merged end states" if merged else "cases without merged end states")
     if any(len({B.spec_identity(comps[u])[3] for u in us}) > 1 for us in _by_terms(comps, uids).values()):
         rep.count("l3_state_ids", "cases with states that differ only in their constraints")
-    if model is None:
+    if model is None or not uids:
         return res
     # ---- model vs implementation: the slice
     calls = []
@@ -725,14 +731,14 @@ def fmt_seq(w):
 QUICK_CORPUS = {
     "counter-lt3-d0", "counter-lt2-d1", "counter-lt2-d2", "counter-lt3-d3", "steps-d2", "toggle-then-step", "two-slots", "arg-set",
     "exclude-contract", "exclude-but-selector-targeted", "target-selector-only-dec", "target-overrides-exclude-selector",
-    "sender-excluded", "sender-targeted", "sender-target-minus-excluded", "not-sender-targeted2",
+    "sender-excluded", "sender-targeted", "not-sender-targeted2", "exclude-selector",
     "test-contract-not-targeted", "test-contract-selector-targeted",
-    "value-needed", "time-after-other-call", "F9-roll", "setup-merge-time", "F12-probe", "value-balance",
-    "branch-cond-arg-small", "branch-cond-arg-big", "branch-cond-arg-d3", "branch-cond-arg-late-store",
+    "value-needed", "time-after-other-call", "F9-roll-after-change", "setup-merge-time", "F12-probe", "value-balance",
+    "branch-cond-arg-small", "branch-cond-arg-big",
     "branch-cond-caller-eq", "branch-cond-value", "branch-cond-unrelated",
     "branch-cond-related-hi", "branch-cond-forward-hi",
-    "instances-tsel-second-hit", "instances-tsel-first-hit", "instances-tsel-holds", "instances-esel-first",
-    "probe-after-refuted-candidate", "probe-sibling-refuted-first", "probe-sibling-genuine-first", "probe-refuted-only",
+    "instances-tsel-second-hit", "instances-tsel-first-hit", "instances-tsel-holds",
+    "probe-after-refuted-candidate", "probe-sibling-refuted-first", "probe-refuted-only",
 }
 
 
